@@ -198,7 +198,9 @@ def _kw_cycle(i, seed, **base):
     # attached after construction
     kw.setdefault("verbose", i % 4 == 3)
     kw.setdefault("queue_form", ["ctor", "add_events", "add_event", "shuffled", "two_batches", "reused", "restored", "generator",
-                                 "after_ctor"][(i // 3) % 9])
+                                 "after_ctor", "empty_ctor"][(i // 3) % 10])
+    kw.setdefault("sub_events", i % 8 == 5)
+    kw.setdefault("reuse_evs", i % 9 == 4)
     kw.setdefault("late_scheduler", i % 5 == 2)
     kw.setdefault("np_ints", i % 6 == 4)
     kw.setdefault("aware_start", i % 7 == 3)
@@ -360,6 +362,8 @@ def fractional_pilots(rep, prop, owners, tier, seed):
 def check_C01(tier, seed):
     rep = check_spec_replay("C01", tier, seed, {"C01"}, {"MaxCrash": "= 0", "Menu": "<- MenuBasic"}, 1500, 40000)
     step_mode(rep, "C01", {"C01"}, tier, seed)
+    from .props_network import check_network    # the station-level API driven directly (Network.tla), C01's fields
+    check_network(rep, tier, seed, "C01")
     return rep.finish()
 
 
@@ -367,6 +371,8 @@ def check_C02(tier, seed):
     rep = check_spec_replay("C02", tier, seed, {"C02", "C03"}, {"MaxCrash": "= 0", "Menu": "<- MenuBasic"}, 1500, 40000)
     step_mode(rep, "C02", {"C02", "C03"}, tier, seed)
     fractional_pilots(rep, "C02", {"C02", "C03"}, tier, seed)
+    from .props_network import check_network    # Network.tla: per-EV ledger and current_charging_rates across direct calls
+    check_network(rep, tier, seed, "C02")
     return rep.finish()
 
 
@@ -395,6 +401,8 @@ def check_C05(tier, seed):
     rep.notes.append("%d behaviours replayed with a scheduler that mutates every object the Interface hands out" % len(jobs))
     from .control import check_control
     check_control(rep, tier)
+    from .props_network import check_network    # the views a scheduler reads (active EVs, station order, ...), Network.tla
+    check_network(rep, tier, seed, "C05")
     return rep.finish()
 
 
@@ -449,6 +457,9 @@ def check_C09(tier, seed):
         rep.sample(b)
     from .acnsim_trace import trace_validation
     trace_validation(rep, "C09", {"C09"}, seed + 63, 60 if tier == "quick" else 1500)
+    # the id-based JSON mechanism itself over arbitrary object graphs with freely chosen sharing (Serial.tla)
+    from .props_serial import check_serial
+    check_serial(rep, tier, seed)
     return rep.finish()
 
 
